@@ -7,31 +7,34 @@ import (
 
 func ToQuery(pbq *proto.Query) *updog.Query {
 	return &updog.Query{
-		Expr:    toExpr(pbq.Expr),
-		GroupBy: pbq.GroupBy,
+		Expr:    toExpr(pbq.GetExpr()),
+		GroupBy: pbq.GetGroupBy(),
 	}
 }
 
+// toExpr converts a protobuf expression. Any part of the message may be unset (a message
+// decoded from the wire can omit every field): unset expressions are converted to nil,
+// which Index.Execute rejects with an error.
 func toExpr(pbe *proto.Query_Expression) updog.Expression {
-	switch v := pbe.Value.(type) {
+	switch v := pbe.GetValue().(type) {
 	case *proto.Query_Expression_Eq:
 		return &updog.ExprEqual{
-			Column: v.Eq.Column,
-			Value:  v.Eq.Value,
+			Column: v.Eq.GetColumn(),
+			Value:  v.Eq.GetValue(),
 		}
 	case *proto.Query_Expression_Not_:
 		return &updog.ExprNot{
-			Expr: toExpr(v.Not.Expr),
+			Expr: toExpr(v.Not.GetExpr()),
 		}
 	case *proto.Query_Expression_And_:
 		e := &updog.ExprAnd{}
-		for _, ee := range v.And.Exprs {
+		for _, ee := range v.And.GetExprs() {
 			e.Exprs = append(e.Exprs, toExpr(ee))
 		}
 		return e
 	case *proto.Query_Expression_Or_:
 		e := &updog.ExprOr{}
-		for _, ee := range v.Or.Exprs {
+		for _, ee := range v.Or.GetExprs() {
 			e.Exprs = append(e.Exprs, toExpr(ee))
 		}
 		return e
